@@ -15,6 +15,7 @@ import ToastyVerif.Props.C14
 import ToastyVerif.Model.Stage
 import ToastyVerif.Model.Lock
 import ToastyVerif.Model.Walk
+import ToastyVerif.Model.Toast
 
 namespace Driver
 
@@ -571,6 +572,52 @@ def handleWalk (a : List String) : String :=
     | _, _ => "bad-op"
   | _ => "bad-op"
 
+/-! ### TOAST geometry over the free term algebra -/
+
+def tmid (a b : Toast.Term) : Toast.Term := .m a b
+def tvtx (v : ToastBase.Vtx) : Toast.Term := .v v
+
+def handleToast (a : List String) : String :=
+  match a with
+  | ["single", pl, p] => match parsePos p with
+    | some p => match Toast.single tmid tvtx (pl == "p") p with
+      | some t => t.str
+      | none => "error"
+    | none => "bad-op"
+  | ["tileat", pl, p] => match parsePos p with
+    | some p => (Toast.tileAt tmid tvtx (pl == "p") p.n p.x p.y).str
+    | none => "bad-op"
+  | ["gen", pl, depth, bo, acc] => match depth.toNat?, parseAcc acc with
+    | some d, some acc =>
+      " | ".intercalate ((Toast.generate tmid tvtx (pl == "p") (fun t => acc t.pos) (bo == "1") d).map Toast.Tile.str)
+    | _, _ => "bad-op"
+  | "descend" :: pl :: start :: choices => match start.toNat?, choices.mapM String.toNat? with
+    | some s, some cs =>
+      let t1 := (Toast.level1 tvtx (pl == "p")).getD s (Toast.dummy tvtx)
+      (Toast.descend tmid (fun t => cs.getD (t.pos.n - 1) 0) cs.length t1).str
+    | _, _ => "bad-op"
+  | "lookup" :: pl :: start :: scores => match start.toNat?, scores.mapM String.toInt? with
+    | some s, some sc =>
+      let t1 := (Toast.level1 tvtx (pl == "p")).getD s (Toast.dummy tvtx)
+      let k := sc.length / 4
+      (Toast.lookup tmid (fun t => (sc.drop (4 * (t.pos.n - 1))).take 4) k t1).str
+    | _, _ => "bad-op"
+  | ["sub", pl, p, k] => match parsePos p, k.toNat? with
+    | some p, some k =>
+      let t := Toast.tileAt tmid tvtx (pl == "p") p.n p.x p.y
+      " ".intercalate (((List.range (2 ^ k)).flatMap (fun i => (List.range (2 ^ k)).map (fun j => (i, j)))).map
+        (fun ij => (Toast.subsample tmid t.inc k t.q ij.1 ij.2).str))
+    | _, _ => "bad-op"
+  | ["centre", pl, p] => match parsePos p with
+    | some p =>
+      let t := Toast.tileAt tmid tvtx (pl == "p") p.n p.x p.y
+      (Toast.childQuad tmid t.inc t.q 0).lr.str
+    | none => "bad-op"
+  | ["level0", pl, k, i, j] => match k.toNat?, i.toNat?, j.toNat? with
+    | some k, some i, some j => (Toast.level0Coords tmid tvtx (pl == "p") k i j).str
+    | _, _, _ => "bad-op"
+  | _ => "bad-op"
+
 def handle (toks : List String) : String :=
   match toks with
   | "gen" :: op :: args => match ints args with
@@ -591,6 +638,7 @@ def handle (toks : List String) : String :=
   | "stage" :: args => handleStage args
   | "lock" :: args => handleLock args
   | "walk" :: args => handleWalk args
+  | "toast" :: args => handleToast args
   | _ => "bad-op"
 
 end Driver
